@@ -551,6 +551,16 @@ def _adaptive_history(ctx, viol, world, rng, i):
             elif op < 0.65:
                 st.record_failure(K)
                 hist.append("F")
+            elif op < 0.74:
+                # the bounds of a live strategy are re-tuned (AdaptiveStrategy is a public, mutable dataclass): the next answer obeys them
+                if rng.random() < 0.5:
+                    mxm = rng.choice([mn, mn + 0.5, mn + 1.0, 5.0 if mn <= 5 else mn])
+                    st.max_multiplier = mxm
+                else:
+                    mn = min(rng.choice([1.0, 1.5, 3.0, mxm]), mxm)  # stays a valid parameterisation: min <= max
+                    st.min_multiplier = mn
+                hist.append(["bounds", mn, mxm])
+                ctx.cnt["adaptive_bounds_reassigned_on_a_live_strategy"] += 1
             elif op < 0.8:
                 d = rng.choice([0.0, 1.0 / 64, window / 2, window - 1.0 / 64, window, window + 1.0 / 64, 3 * window])
                 world.t += d
